@@ -133,13 +133,20 @@ def tlc_trace(spec, trace, cfg=None, timeout=1800, xmx="4g", env=None, metatag=N
     cmd = _tlc_cmd([f"-Xmx{xmx}", "-Xss1g", "-Dtlc2.tool.queue.IStateQueue=StateDeque"],
                    ["-workers", "1", "-metadir", meta, "-cleanup", "-noGenerateSpecTE",
                     "-config", cfg, spec])
-    rc, out, dt = sh(cmd, cwd=SPEC, timeout=timeout, env=e)
-    shutil.rmtree(meta, ignore_errors=True)
-    msgs = _parse_printed(out)
-    done = [m for m in msgs if m.get("kind") == "DONE"]
-    if not done:
-        raise ToolError(f"trace validation did not complete ({spec}, rc={rc}):\n{out[-5000:]}")
-    return msgs, dt, out
+    for attempt in (1, 2):
+        rc, out, dt = sh(cmd, cwd=SPEC, timeout=timeout, env=e)
+        shutil.rmtree(meta, ignore_errors=True)
+        msgs = _parse_printed(out)
+        done = [m for m in msgs if m.get("kind") == "DONE"]
+        if done:
+            return msgs, dt, out
+        # keep the output for diagnosis; a JVM that died of a transient resource problem (the
+        # machine runs many of them) gets one more try - the validation is deterministic
+        os.makedirs(os.path.join(OUT, "tlc-errors"), exist_ok=True)
+        with open(os.path.join(OUT, "tlc-errors", f"{os.path.basename(spec)}-{os.getpid()}-{attempt}.log"), "w") as f:
+            f.write(out)
+        log(f"trace validation with {spec} did not complete (rc={rc}, attempt {attempt})")
+    raise ToolError(f"trace validation did not complete ({spec}, rc={rc}):\n{out[-5000:]}")
 
 
 def tlc_mc(spec, cfg, workers=None, timeout=3600, xmx="8g", simulate=None, depth=None, seed=None,
